@@ -105,12 +105,12 @@ impl<K: Clone + Eq + Hash, V: Value> LeastRecentlyUsedCache<K, V> {
         // We are the only one who can dereference pointers right now.
         match state.keys.entry(key) {
             Entry::Occupied(entry) => {
+                let existing_ptr = *entry.get();
                 {
                     let node = unsafe { &mut *ptr };
-                    let existing_ptr = entry.get();
                     // SAFETY(rescrv):
                     // We are the only one who can dereference pointers right now.
-                    let existing_node = unsafe { &mut **existing_ptr };
+                    let existing_node = unsafe { &mut *existing_ptr };
                     std::mem::swap(&mut node.value, &mut existing_node.value);
                     state.size += existing_node.value.approximate_size();
                     state.size -= node.value.approximate_size();
@@ -119,6 +119,9 @@ impl<K: Clone + Eq + Hash, V: Value> LeastRecentlyUsedCache<K, V> {
                 unsafe {
                     Node::drop(ptr);
                 }
+                // An overwrite is a use:  the entry becomes the most recently used.
+                // SAFETY(rescrv):  We hold no references across this call.
+                state = unsafe { self.move_lru_to_front(state, existing_ptr) };
             }
             Entry::Vacant(entry) => {
                 let node = unsafe { &mut *ptr };
@@ -170,7 +173,7 @@ impl<K: Clone + Eq + Hash, V: Value> LeastRecentlyUsedCache<K, V> {
         };
         // SAFETY(rescrv):  We hold no references across this call.
         unsafe {
-            self.move_lru_to_front(state, ptr);
+            drop(self.move_lru_to_front(state, ptr));
         }
         Some(value)
     }
@@ -229,11 +232,11 @@ impl<K: Clone + Eq + Hash, V: Value> LeastRecentlyUsedCache<K, V> {
     }
 
     // The caller must make sure no references to linked nodes remain.
-    unsafe fn move_lru_to_front(
+    unsafe fn move_lru_to_front<'a>(
         &self,
-        mut state: MutexGuard<'_, State<K, V>>,
+        mut state: MutexGuard<'a, State<K, V>>,
         ptr: *mut Node<K, V>,
-    ) {
+    ) -> MutexGuard<'a, State<K, V>> {
         if ptr != state.head {
             // SAFETY(rescrv):  No references exist outside this function, and this is our first.
             let node = unsafe { &mut *ptr };
@@ -257,6 +260,7 @@ impl<K: Clone + Eq + Hash, V: Value> LeastRecentlyUsedCache<K, V> {
             head.prev = ptr;
             state.head = ptr;
         }
+        state
     }
 
     // The caller must make sure no references to linked nodes remain.
